@@ -501,6 +501,26 @@ def lowrank_cases(ctx, nall, nmax, knill_n=4):
     return out
 
 
+def boundary_cases(ctx):
+    """Sizes next to thresholds that the regular grids leave out in the quick tier (everything else - n = 1/2/3 of the closed
+    forms, every iso in 0..n for n <= 5, every (n, m) <= 5 incl. m = 0/1 and 1-D vectors, ranks maxr//2, maxr//2+1, maxr-1, maxr,
+    every partition size - is already AT and one off the boundary in unitary_cases / isometry_cases / lowrank_cases, and the
+    generated estimate functions are tied exhaustively around every comparison):
+    * `n_qubits - 1 == 2` inside _cnot_count_iso is reached with iso still > 0 iff iso >= n - 2: iso = n-3 / n-2 / n-1 / n at n = 6;
+    * lowrank.cnot_count -> schmidt_decomposition(svd='auto'): n = 13 / 14 / 15 with low_rank = 1 (default partition, above
+      round(n/2.5)), a 6-qubit partition at n = 14 (at the bound) and low_rank = 2 at n = 14 - rank 1 keeps estimate and circuit
+      cheap (two generic states of <= 8 qubits)."""
+    out = []
+    for iso in (3, 5):
+        out.append(("unitary", 6, "qsd", iso, True, ctx.rng.getrandbits(30)))
+        ctx.count(f"boundary:unitary:n=6:iso={iso}(n-3..n)")
+    for n, part, lr in ((13, None, 1), (14, None, 1), (15, None, 1), (14, sorted(ctx.rng.sample(range(14), 6)), 1), (14, None, 2)):
+        for iso, uni in (("ccd", "qsd"), ("csd", "csd")):
+            out.append(("lowrank", n, part, lr, iso, uni, ctx.rng.getrandbits(30)))
+            ctx.count(f"boundary:lowrank:svd-switch:n={n}:p={'default' if part is None else len(part)}:lr={lr}")
+    return out
+
+
 PRIM_RANGE = {"ucrz": range(1, 7), "ucry": range(1, 7), "ucrCZ": range(1, 7), "ucg": range(1, 6), "ucgd": range(1, 6),
               "diag": range(1, 8), "u2": range(0, 1), "a2": range(1, 5)}
 
@@ -767,6 +787,7 @@ def run(ctx):
     jobs += isometry_cases(ctx, 5 if quick else 6, 3 if quick else 4, None if quick else 7)
     jobs += lowrank_cases(ctx, 4 if quick else 5, 8 if quick else 9, 4 if quick else 5)
     jobs += probe_known(ctx)
+    jobs += boundary_cases(ctx)
     results = oracle(ctx, jobs)
     shape_ties(ctx, jobs, results)
     ctx.notes.append("scope: (qsd, apply_a2=False, iso>0) and (csd, iso>0) are not option combinations the property speaks of; "
